@@ -86,6 +86,7 @@ def gen_plan(prop, run_seed, tier):
         plan["screen"] = spec
         plan["prepare"] = dict(fraction=w.choice([0.1, 0.25, 0.5, 0.5, 1.0, 0.0]), seed=w.randrange(2**31))
         plan["theta_seed"] = w.randrange(2**31)
+        plan["hand_built_base"] = w.randrange(2**31) if w.random() < 0.3 else None
         n_steps = s.randint(2, 14 if tier == "quick" else 40)
         ops = ["reveal"] * 5 + ["mask", "unmask"] + ["save_load"] * 3 + ["reveal_cli"] * 2
         if s.random() < (0.06 if tier == "quick" else 0.12):
@@ -125,6 +126,7 @@ def gen_plan(prop, run_seed, tier):
         if op == "save_load":
             st["cycles"] = s.choice([1, 1, 2, 3])
             st["torn"] = f.random() if f.random() < 0.3 else None
+            st["stale"] = f.random() if f.random() < 0.25 else None
             if prop == "C02":
                 st["rep"] = s.random() < 0.25  # mostly keep the saved object alive: it may be edited and saved again
                 st["keep_original_last"] = True
@@ -249,6 +251,18 @@ def _run(ctx):
     plan, prop = ctx.plan, ctx.prop
     try:
         base = gen.make_screen(plan["screen"])
+        hb = plan.get("hand_built_base")
+        if hb is not None and base.size:
+            # the whole simulation starts from a screen whose id mappings were specified by hand (ids from an external
+            # registry): dense, but a permutation of the sorted-unique numbering; entries listed alphabetically or not
+            from batchie.data import Screen
+
+            hrnd = sub_rng(hb, "hand-built-base")
+            tm, sm, _, _ = _hand_built_mappings(ctx, hrnd, base, hrnd.random() < 0.3, shuffle_entries=hrnd.random() < 0.5)
+            base = Screen(treatment_names=base.treatment_names, treatment_doses=base.treatment_doses, sample_names=base.sample_names,
+                          plate_names=base.plate_names, observations=base.observations, observation_mask=base.observation_mask,
+                          control_treatment_name=base.control_treatment_name, treatment_mapping=tm, sample_mapping=sm)
+            ctx.stats.probe("hand_built_base_mapping")
     except Exception as e:  # not constructible: outside every quantifier
         ctx.log.ev("base-not-constructible", type(e).__name__)
         return
@@ -703,6 +717,8 @@ def op_save_load(ctx, st, t):
         cur = new
     if st.get("torn") is not None:
         _torn_save(ctx, live.screen, st["torn"])
+    if st.get("stale") is not None and ctx.prop in ("C02", "C03", "C12"):
+        _save_over_stale(ctx, live.screen, st["stale"])
     sd, td, _, _ = ref.mapping_dicts(live.screen)
     child = Live(cur, list(live.rows), live.lineage_sizes, (sd, td), live.tag)
     _lineage_check(ctx, live, child, "save_load")
@@ -712,6 +728,46 @@ def op_save_load(ctx, st, t):
         # the object that was saved stays the "most recent" one: it may be edited in place and saved again
         ctx.pool.remove(live)
         ctx.pool.append(live)
+
+
+def _save_over_stale(ctx, screen, u):
+    """fault leftover.stale-same-shape: the path the screen is saved to already holds a readable archive of ANOTHER screen
+    with exactly the same numbers of rows and mapping entries (an earlier version of the same data set under shorter
+    names).  What is loaded back afterwards must be the screen that was saved."""
+    from batchie.data import Screen
+
+    if screen.size == 0:
+        return
+    rnd = sub_rng(int(u * 2**31), "stale")
+    try:
+        def short(names):
+            uniq = sorted({str(x) for x in np.asarray(names).ravel().tolist()})
+            m = {n: (n if n == str(screen.control_treatment_name) else f"{i:x}") for i, n in enumerate(uniq)}
+            return np.vectorize(lambda x: m[str(x)], otypes=[object])(np.asarray(names)).astype(str)
+
+        other = Screen(treatment_names=short(screen.treatment_names), treatment_doses=np.asarray(screen.treatment_doses).copy(),
+                       sample_names=short(screen.sample_names), plate_names=short(screen.plate_names),
+                       observations=np.asarray(screen.observations)[::-1].copy(), observation_mask=np.asarray(screen.observation_mask).copy(),
+                       control_treatment_name=screen.control_treatment_name)
+        path = ctx.scratch.file("reused_path.h5")
+        other.save_h5(path)
+    except Exception:
+        return  # (renaming can make plates collide with mixed status etc.: no stale file, nothing to judge)
+    ctx.stats.fault("leftover.stale-same-shape")
+    ctx.stats.oracle_evals += 1
+    try:
+        screen.save_h5(path)
+        got = Screen.load_h5(path)
+    except Exception as e:
+        ctx.violation(f"{ctx.prop}.save-over-existing-archive-raised", type(e).__name__,
+                      f"saving a screen to a path that already holds another screen's archive (same shape) raised {e!r}")
+        return
+    same = (ref.content_rows(got) == ref.content_rows(screen) and ref.row_ids(got) == ref.row_ids(screen)
+            and ref.mapping_dicts(got) == ref.mapping_dicts(screen))
+    if not same:
+        ctx.violation(f"{ctx.prop}.stale-archive-shows-through", "Screen.save_h5",
+                      "a screen saved to a path that already held another screen's archive (same numbers of rows and mapping "
+                      "entries, shorter names) does not load back as itself")
 
 
 def _torn_save(ctx, screen, u):
@@ -896,18 +952,8 @@ def op_resplit_ctor(ctx, st, t):
         del ctx.pool[2 if len(ctx.pool) > 3 else 0]
 
 
-def op_perm_ctor(ctx, st, t):
-    """Construct a Screen from a live screen's rows with a HAND-BUILT mapping: a legal one (dense ids, covers the
-    rows, control cells at the sentinel) whose ids are a random permutation rather than the sorted-unique
-    numbering batchie would choose itself, listed in shuffled order, covering exactly the rows or a superset.
-    Everything later in the history (save/load, reveal, mask, merge ...) must keep that numbering."""
-    from batchie.data import Screen
-
-    live = ctx.pool[t]
-    rnd = sub_rng(st["sub"], "permctor")
-    s = live.screen
-    if s.size == 0:
-        return
+def _hand_built_mappings(ctx, rnd, s, extra, shuffle_entries=True):
+    """(treatment_mapping, sample_mapping, entries, sentries) for screen s: dense permuted ids, see op_perm_ctor."""
     control = str(s.control_treatment_name)
     conds = sorted({(str(n), float(d)) for n, d in zip(np.asarray(s.treatment_names).ravel().tolist(),
                                                          np.asarray(s.treatment_doses).ravel().tolist())},
@@ -920,7 +966,7 @@ def op_perm_ctor(ctx, st, t):
             seen.add(k)
             uniq.append((n, d))
     samples = sorted({str(x) for x in np.asarray(s.sample_names).tolist()})
-    if st.get("extra") == "huge":
+    if extra == "huge":
         # a small screen inside a very large experiment space: ids beyond what two bytes hold
         n_extra = rnd.choice([33000, 33000, 66000])
         samples += [f"zz_space_s{k}" for k in range(n_extra) if f"zz_space_s{k}" not in samples]
@@ -929,7 +975,7 @@ def op_perm_ctor(ctx, st, t):
             if ref.tkey(*cand) not in seen:
                 uniq.append(cand)
         ctx.stats.probe("huge_experiment_space")
-    elif st.get("extra"):
+    elif extra:
         for k in range(rnd.randint(1, 3)):
             cand = (f"zz_extra{k}", 1.0 + k)
             if ref.tkey(*cand) not in seen:
@@ -941,14 +987,32 @@ def op_perm_ctor(ctx, st, t):
     rnd.shuffle(ids)
     tmap = {c: i for c, i in zip(nonctl, ids)}
     entries = [(n, d, tmap.get((n, d), -1)) for n, d in uniq]
-    rnd.shuffle(entries)
+    if shuffle_entries:
+        rnd.shuffle(entries)
     sids = list(range(len(samples)))
     rnd.shuffle(sids)
     sentries = list(zip(samples, sids))
-    rnd.shuffle(sentries)
+    if shuffle_entries:
+        rnd.shuffle(sentries)
     tm = (np.array([e[0] for e in entries], dtype=str), np.array([e[1] for e in entries], dtype=float),
           np.array([e[2] for e in entries], dtype=int))
     sm = (np.array([e[0] for e in sentries], dtype=str), np.array([e[1] for e in sentries], dtype=int))
+    return tm, sm, entries, sentries
+
+
+def op_perm_ctor(ctx, st, t):
+    """Construct a Screen from a live screen's rows with a HAND-BUILT mapping: a legal one (dense ids, covers the
+    rows, control cells at the sentinel) whose ids are a random permutation rather than the sorted-unique
+    numbering batchie would choose itself, listed in shuffled order, covering exactly the rows or a superset.
+    Everything later in the history (save/load, reveal, mask, merge ...) must keep that numbering."""
+    from batchie.data import Screen
+
+    live = ctx.pool[t]
+    rnd = sub_rng(st["sub"], "permctor")
+    s = live.screen
+    if s.size == 0:
+        return
+    tm, sm, entries, sentries = _hand_built_mappings(ctx, rnd, s, st.get("extra"))
     try:
         new = Screen(treatment_names=s.treatment_names.copy(), treatment_doses=s.treatment_doses.copy(),
                      sample_names=s.sample_names.copy(), plate_names=s.plate_names.copy(),
